@@ -118,14 +118,26 @@ def _run_impl(cases, enum_jobs=()):
 # ------------------------------------------------------------------ the property on the implementation
 def property_on_impl(case, res):
     """each (item, task) at most once and in order, only source items, no start after an
-    effective stop, never stuck; exactly once when process() returned without a stop."""
+    effective stop and nothing taken from a synchronous source after it, never stuck; exactly once when process() returned
+    without a stop."""
     t = case['t']
     started, ended = set(), set()
     yielded = set()
     stopped = False
+    prod_ran = prod_ran_before_stop = False
     for e in res['trace']:
+        if e[0] == 'run' and e[1] == 'prod':
+            prod_ran = True
+        if e[0] == 'env' and e[1] == 'stop' and len(e) > 3 and not stopped:
+            prod_ran_before_stop = prod_ran
         if e[0] == 'env':
             if e[1] == 'item':
+                if stopped and prod_ran_before_stop and case.get('mode') == 'table':
+                    # the synchronous source hands an item out only inside a get_item() call: this one was made after the stop by a
+                    # producer that was already running.  (A stop that precedes the producer's FIRST step is not counted: process()
+                    # sets the running flag when it starts, takes one item and the item is discarded unprocessed, exactly like an
+                    # item queued just before a stop - the model reads "taking work" as starting a task, C13_stop_takes_no_more.)
+                    return 'item-taken-after-stop'
                 yielded.add(e[2])
             if e[1] == 'stop' and len(e) > 3:
                 stopped = True
